@@ -25,8 +25,29 @@ def translate(R):
     if rc != 0 or "Definition gen_facts" not in out:
         R.proof_problems.append("lockfacts translator failed on the current tree: " + out[-300:])
         return False
+    # methods the translator could not classify (they take a lock through something it does not follow): keep the
+    # reference fact (the committed GenLockFacts.v), say so, and let the race / forced-interleaving runs decide
+    # (docs/ROBUST_TRANSLATORS.md rule 2).  A method positively seen to access table state outside its lock is not in this list.
+    gen = os.path.join(vlib.COQ, "Tables", "GenLockFacts.v")
+    unclear = re.findall(r"\(\* UNCLASSIFIED (\S+):", out)
+    if unclear:
+        ref = open(os.path.join(vlib.VERIF, "coq", "Tables", "GenLockFacts.v")).read()
+        kept, lost = [], []
+        for name in unclear:
+            m_ref = re.search(r'^  mkfact \d+ "%s" .*$' % re.escape(name), ref, re.M)
+            m_new = re.search(r'^  mkfact \d+ "%s" .*$' % re.escape(name), out, re.M)
+            if m_ref and m_new:
+                line = m_ref.group(0).rstrip(";")
+                line += ";" if m_new.group(0).endswith(";") else ""
+                out = out.replace(m_new.group(0), line)
+                kept.append(name)
+            else:
+                lost.append(name)
+        R.coverage["translation_incomplete"] = dict(reference_kept=kept, no_reference=lost)
+        R.notes.append("translator: lock discipline of %s not classified from the source (lock taken through a construct the AST analysis does not follow); "
+                       "reference facts kept; the race-detector, forced-interleaving and linearizability runs decide" % ", ".join(unclear))
     with vlib.flock("coq-Tables"):
-        changed = vlib.write_if_changed(os.path.join(vlib.COQ, "Tables", "GenLockFacts.v"), out)
+        changed = vlib.write_if_changed(gen, out)
     R.coverage["lockfacts"] = dict(methods=out.count("mkfact "), regenerated=changed,
                                    unbracketed=[m for m in re.findall(r'mkfact \d+ "([^"]+)" None (?:true|false) (?:true|false)', out)],
                                    aliasing=[m for m in re.findall(r'mkfact \d+ "([^"]+)" \S+(?: \S+)? (?:true|false) (?:true|false) \[[^\]]*\] true', out)])
